@@ -638,7 +638,6 @@ func rulesExtract(p *Prog, r *Report, eng *Engine) {
 	_ = types.Typ
 }
 
-
 func isStringSlice(t types.Type) bool {
 	sl, ok := t.Underlying().(*types.Slice)
 	return ok && isStringType(sl.Elem())
@@ -755,7 +754,6 @@ func isElemTextOf(v ssa.Value, coll, idx ssa.Value) bool {
 	}
 	return false
 }
-
 
 // isNodeSlice: t is a slice nested `depth` deep over *node ([]*node: 1, [][]*node: 2), named or not.
 func isNodeSlice(t types.Type, node *types.Named, depth int) bool {
